@@ -101,7 +101,7 @@ def main(run: Run):
     run.require(*CLAUSES)
     run.assumptions += BASE_ASSUMPTIONS_L2
     run.functions["amaranth_soc.event.Monitor.elaborate"] = "per-configuration (bounded: sources/modes/order), all inputs/states/time"
-    run_configs(run, __name__, cfgs)
+    run_configs(run, __name__, cfgs, must_accept=True)
     from . import C13_l1
     C13_l1.add_to(run)
     return run.finish(
